@@ -565,7 +565,49 @@ def plan_export(run, prop, tier):
     return acc
 
 
+def cfg_scriptgen(cap, maxlen, lits, vars_, labels, datas, maxn=2):
+    return ("INIT Init\nNEXT Next\nCONSTANTS Cap = %d MaxLen = %d LitIds = %s Vars = %s Labels = %s Datas = %s\n"
+            " MaxN = %d MaxGroups = 14 MaxGroupSize = 16\nCHECK_DEADLOCK FALSE\n"
+            % (cap, maxlen, int_set(lits), tla_set(vars_), tla_set(labels), tla_set(datas), maxn))
+
+
+def plan_script(run, prop, tier):
+    """C14: ScriptGen.tla grows every in-domain program command by command, renders it in four legal formattings and in every
+    single-fault corruption the property requires to be rejected, with the expected graph; the harness deploys the text and,
+    independently, applies the same API calls, and compares the two graphs completely (and with the model)."""
+    acc = Acc()
+    datas = ["CA-FE", "00-1A-2B-3C-4D-5E-6F-70-81"]
+    jobs = [("programs <=4 commands, ids {0,1}, vars {x,y}", cfg_scriptgen(5, 4, [0, 1], ["x", "y"], ["foo", "b"], datas), [(2, 5), (16, 64)], 1)]
+    if tier == "thorough":
+        jobs.append(("programs <=5 commands, ids {0,1}, var {x}", cfg_scriptgen(5, 5, [0, 1], ["x"], ["foo"], ["CA-FE"]), [(2, 5), (3, 9)], 1))
+        jobs.append(("programs <=4 commands, ids {0,2,3}, vars {x,y}", cfg_scriptgen(6, 4, [0, 2, 3], ["x", "y"], ["foo", "b"], datas), [(2, 6)], 1))
+    for name, cfg, runs, stride in jobs:
+        path, cached = vlib.emit_ts(run, "ScriptGen", cfg, workers=8, timeout=3000)
+        for k, (n, cap) in enumerate(runs):
+            j = vlib.script_run(run, [path], n, cap, stride=stride, offset=k % stride)
+            acc.states += j["executed"]
+            acc.transitions += j["executed"] * 2
+            rec = {k2: j[k2] for k2 in ("vectors", "executed", "mismatching", "by_signature", "by_style", "by_fault", "with_variables", "n", "cap")}
+            rec["generator"] = name
+            acc.e2.append(rec)
+            if j["samples"]:
+                acc.samples.extend(j["samples"][:2])
+            if j["executed"] == 0 or j["with_variables"] == 0 or len(j["by_fault"]) < 8 or len(j["by_style"]) < 4:
+                raise ToolError("vacuity: script vectors do not cover variables / all fault classes / all styles")
+            if j["witnesses"]:
+                v = vlib.judge(run, j["witness_file"], n)
+                acc.traces += len(j["witnesses"])
+                wit = {w["t"]: w for w in j["witnesses"]}
+                for (t, line, prop_, what) in v["fails"]:
+                    w = wit.get(t)
+                    acc.fails.append({"prop": prop_, "what": what + (": " + repr(w["calls"][0]["text"])[:160] if w else ""),
+                                      "source": f"E2 script vectors {name} N={n} cap={cap}",
+                                      "replay": {"n": n, "cap": cap, "calls": w["calls"]} if w else None, "sig": w["sig"] if w else ""})
+    return acc
+
+
 PLANS = {p: plan_gc for p in ("C01", "C02", "C03", "C04", "C06")}
+PLANS["C14"] = plan_script
 PLANS["C18"] = plan_export
 PLANS["C20"] = plan_export
 PLANS["C17"] = plan_label
